@@ -142,7 +142,7 @@ K("K.sim.entry_then_rti", "sim.rs", "interrupt_entry_then_rti", ["C10"], STEP_FN
 K("K.sim.reset", "sim.rs", "reset_contract", ["C30"], ["Simulator::reset"], args=UF,
   stubs=["Simulator::new_with_mcr=records its arguments, returns a marked fresh machine", "DeviceHandler::io_reset=counted (K.device.io_reset_all)", RS], group="reset")
 K("K.sim.reset_register_map", "sim.rs", "reset_keeps_register_map", ["C30"], ["Simulator::reset"], kind="bounded", bound="one concrete mapping (PC@xFE10) before the reset; fresh machine has the default map",
-  args=UF, stubs=["Simulator::new_with_mcr=marked fresh machine with the default register map", "DeviceHandler::io_reset=counted", RS], unwindset={"hashbrown": 3}, timeout=2400, tier="thorough", exploratory=True)
+  args=UF, stubs=["Simulator::new_with_mcr=marked fresh machine with the default register map", "DeviceHandler::io_reset=counted", RS], unwindset={"hashbrown": 3}, timeout=2400)
 K("K.sim.step_in_contract", "sim.rs", "step_in_contract", ["C13", "C28", "C08"], ["Simulator::step_in"], args=UF,
   stubs=["Simulator::step=any outcome (contract discharged by K.sim.step_*)", "AccessObserver::clear=counted (K.observer.map)", RS], group="stepin", timeout=1200)
 RUNFN = ["Simulator::run_while", "Simulator::run_with_limit", "Simulator::run", "Simulator::step_over", "Simulator::step_out", "Simulator::hit_halt", "Simulator::hit_breakpoint", "Breakpoint::check"]
